@@ -220,6 +220,19 @@ class Machine:
         if m:
             items = [self.operand(st, frame, parse_operand(x)) for x in split_top(m.group(1))] if m.group(1).strip() else []
             return ("slice", tuple(items))
+        m = re.match(r"^(Eq|Ne|Lt|Le|Gt|Ge|Add|Sub|BitAnd|BitOr|BitXor)\((.*)\)$", r)
+        if m:
+            parts = split_top(m.group(2))
+            if len(parts) == 2:
+                a, b = [self.operand(st, frame, parse_operand(x)) for x in parts]
+                op = m.group(1)
+                if z3.is_bv(a) and z3.is_bv(b):
+                    # (unsigned: the executors only meet usize / u8 / discriminants here)
+                    return {"Eq": a == b, "Ne": a != b, "Lt": z3.ULT(a, b), "Le": z3.ULE(a, b), "Gt": z3.UGT(a, b), "Ge": z3.UGE(a, b),
+                            "Add": a + b, "Sub": a - b, "BitAnd": a & b, "BitOr": a | b, "BitXor": a ^ b}[op]
+                if z3.is_bool(a) and z3.is_bool(b) and op in ("Eq", "Ne", "BitAnd", "BitOr", "BitXor"):
+                    return {"Eq": a == b, "Ne": a != b, "BitAnd": z3.And(a, b), "BitOr": z3.Or(a, b), "BitXor": z3.Xor(a, b)}[op]
+                raise Unsupported("%s of %r, %r" % (op, a, b))
         m = re.match(r"^Not\((.*)\)$", r)
         if m:
             v = self.operand(st, frame, parse_operand(m.group(1)))
